@@ -2,6 +2,7 @@
 //! with a token ledger, chain-like rollback, and assert evaluation.
 
 use crate::oracles::{self, OracleResult, OracleSel, StepCtx};
+use ats_smart_contract::version_info::VersionInfoV1 as VersionRecord;
 #[allow(deprecated)]
 use ats_smart_contract::bid_order::{BidOrderV2, BIDS_V2};
 use ats_smart_contract::ask_order::{AskOrderClass, AskOrderStatus, AskOrderV1, ASKS_V1};
@@ -14,8 +15,8 @@ use ats_smart_contract::version_info::{
 };
 use cosmwasm_std::testing::{mock_env, MockApi, MockStorage, MOCK_CONTRACT_ADDR};
 use cosmwasm_std::{
-    from_slice, to_binary, Addr, BankMsg, Coin, ContractResult, CosmosMsg, Deps, DepsMut, Empty,
-    Env, MessageInfo, Order, OwnedDeps, QuerierWrapper, Response, Storage, SystemError,
+    from_slice, to_binary, Addr, BankMsg, Binary, Coin, ContractResult, CosmosMsg, Deps, DepsMut,
+    Empty, Env, MessageInfo, Order, OwnedDeps, QuerierWrapper, Response, Storage, SystemError,
     SystemResult,
 };
 use prost::Message;
@@ -152,6 +153,76 @@ pub fn scan_namespace(storage: &dyn Storage, ns: &str) -> Vec<(Vec<u8>, Vec<u8>)
         .filter(|(k, _)| k.starts_with(&prefix))
         .map(|(k, v)| (k[prefix.len()..].to_vec(), v))
         .collect()
+}
+
+/// Complete raw copy of the contract storage at one moment (the "state" the step-level
+/// oracles compare before / after a request).
+#[derive(Clone, Debug, Default)]
+pub struct Snap {
+    pub raw: Vec<(Vec<u8>, Vec<u8>)>,
+}
+
+pub const ASK_PREFIX: &[u8] = b"\x00\x03ask";
+pub const BID_PREFIX: &[u8] = b"\x00\x03bid";
+pub const CONTRACT_INFO_KEY: &[u8] = b"contract_info";
+pub const VERSION_INFO_KEY: &[u8] = b"version_info";
+
+impl Snap {
+    pub fn take(storage: &dyn Storage) -> Snap {
+        Snap {
+            raw: storage.range(None, None, Order::Ascending).collect(),
+        }
+    }
+    pub fn get(&self, key: &[u8]) -> Option<&[u8]> {
+        self.raw
+            .iter()
+            .find(|(k, _)| k.as_slice() == key)
+            .map(|(_, v)| v.as_slice())
+    }
+    /// (id bytes, stored bytes) of every record of a `Map` namespace
+    pub fn namespace(&self, prefix: &[u8]) -> Vec<(&[u8], &[u8])> {
+        self.raw
+            .iter()
+            .filter(|(k, _)| k.starts_with(prefix))
+            .map(|(k, v)| (&k[prefix.len()..], v.as_slice()))
+            .collect()
+    }
+    pub fn asks(&self) -> Vec<(&[u8], &[u8])> {
+        self.namespace(ASK_PREFIX)
+    }
+    pub fn bids(&self) -> Vec<(&[u8], &[u8])> {
+        self.namespace(BID_PREFIX)
+    }
+    pub fn ask_raw(&self, id: &str) -> Option<&[u8]> {
+        let mut k = ASK_PREFIX.to_vec();
+        k.extend_from_slice(id.as_bytes());
+        self.get(&k)
+    }
+    pub fn bid_raw(&self, id: &str) -> Option<&[u8]> {
+        let mut k = BID_PREFIX.to_vec();
+        k.extend_from_slice(id.as_bytes());
+        self.get(&k)
+    }
+    pub fn ask(&self, id: &str) -> Option<AskOrderV1> {
+        self.ask_raw(id).and_then(|b| from_slice(b).ok())
+    }
+    /// the current-format bid stored under `id`, if any
+    pub fn bid(&self, id: &str) -> Option<BidOrderV3> {
+        self.bid_raw(id).and_then(|b| from_slice(b).ok())
+    }
+    pub fn contract_info(&self) -> Option<ContractInfoV3> {
+        self.get(CONTRACT_INFO_KEY).and_then(|b| from_slice(b).ok())
+    }
+    pub fn version(&self) -> Option<VersionRecord> {
+        self.get(VERSION_INFO_KEY).and_then(|b| from_slice(b).ok())
+    }
+    /// every storage entry except the listed keys / prefixes is the same in both snapshots
+    pub fn same_except(&self, other: &Snap, except: &[&[u8]]) -> bool {
+        let keep = |k: &Vec<u8>| !except.iter().any(|e| k.starts_with(e));
+        let a: Vec<&(Vec<u8>, Vec<u8>)> = self.raw.iter().filter(|(k, _)| keep(k)).collect();
+        let b: Vec<&(Vec<u8>, Vec<u8>)> = other.raw.iter().filter(|(k, _)| keep(k)).collect();
+        a == b
+    }
 }
 
 // ---------------------------------------------------------------------------
@@ -393,6 +464,7 @@ pub struct World {
     pub deps: MockDeps,
     pub contract: String,
     pub markers: BTreeMap<String, String>,
+    pub attributes: BTreeMap<String, Vec<String>>,
     pub ledger: Ledger,
 }
 
@@ -539,6 +611,7 @@ impl World {
             deps,
             contract,
             markers,
+            attributes,
             ledger: Ledger::new(),
         })
     }
@@ -620,17 +693,66 @@ impl World {
             .unwrap_or(Value::Null);
     }
 
-    fn run_oracles(&self, out: &mut StepOutcome, sel: &OracleSel) {
+    fn run_oracles(
+        &self,
+        out: &mut StepOutcome,
+        sel: &OracleSel,
+        pre: &Snap,
+        request: &Request,
+        funds: &[Coin],
+    ) {
         if matches!(sel, OracleSel::Nothing) {
             return;
         }
-        let ci = self.contract_info();
+        let post = Snap::take(&self.deps.storage);
         let ctx = StepCtx {
+            kind: &out.kind,
             exec_kind: out.exec_kind.as_deref(),
             sender: out.sender.as_deref(),
+            request,
+            funds,
+            ok: out.ok,
+            panicked: out.panicked,
+            error: out.error.as_deref(),
             messages: &out.messages,
+            attributes: &out.attributes,
+            pre,
+            post: &post,
         };
-        out.oracles = Some(oracles::evaluate(self, &out.book, ci.as_ref(), &ctx, sel));
+        let res = oracles::evaluate(self, &out.book, &ctx, sel);
+        if out.ok || !res.is_empty() {
+            out.oracles = Some(res);
+        }
+    }
+
+    /// Runs `query` on an arbitrary storage.
+    pub fn query_on(&self, storage: &MockStorage, msg: QueryMsg) -> CallResult<Binary> {
+        let env = self.env();
+        let api = &self.deps.api;
+        let querier = &self.deps.querier;
+        guarded(move || {
+            let deps = Deps {
+                storage,
+                api,
+                querier: QuerierWrapper::new(querier),
+            };
+            query(deps, env, msg)
+        })
+    }
+
+    /// Runs `migrate` on an arbitrary storage.
+    pub fn migrate_on(&self, storage: &mut MockStorage, msg: MigrateMsg) -> CallResult<Response> {
+        let env = self.env();
+        let api = &self.deps.api;
+        let querier = &self.deps.querier;
+        guarded(move || {
+            let deps = DepsMut {
+                storage,
+                api,
+                querier: QuerierWrapper::new(querier),
+            };
+            migrate(deps, env, msg)
+        })
     }
 
     pub fn instantiate(&mut self, v: Option<&Value>, sel: &OracleSel) -> StepOutcome {
@@ -667,11 +789,13 @@ impl World {
             funds: vec![],
         };
         let backup = clone_storage(&self.deps.storage);
+        let pre = Snap::take(&self.deps.storage);
+        let request = Request::Instantiate(msg.clone());
         let r = {
             let deps = &mut self.deps;
             guarded(move || instantiate(deps.as_mut(), env, info, msg))
         };
-        self.finish_call(&mut out, r, backup, &[], sel);
+        self.finish_call(&mut out, r, backup, &[], sel, &pre, &request);
         out
     }
 
@@ -683,6 +807,8 @@ impl World {
         backup: MockStorage,
         funds: &[Coin],
         sel: &OracleSel,
+        pre: &Snap,
+        request: &Request,
     ) {
         match r {
             CallResult::Ok(resp) => {
@@ -708,18 +834,21 @@ impl World {
                 let msgs = out.messages.clone();
                 self.apply_messages(&msgs);
                 self.snapshot(out);
-                self.run_oracles(out, sel);
+                self.run_oracles(out, sel, pre, request, funds);
             }
             CallResult::Err(e) => {
                 self.deps.storage = backup;
                 out.error = Some(e);
                 self.snapshot(out);
+                // the oracles with a "must be accepted" direction also judge refusals
+                self.run_oracles(out, sel, pre, request, funds);
             }
             CallResult::Panic(e) => {
                 self.deps.storage = backup;
                 out.panicked = true;
                 out.error = Some(format!("panic: {e}"));
                 self.snapshot(out);
+                self.run_oracles(out, sel, pre, request, funds);
             }
         }
     }
@@ -758,6 +887,8 @@ impl World {
                 }
             };
             let backup = clone_storage(&self.deps.storage);
+            let pre = Snap::take(&self.deps.storage);
+            let request = Request::Execute(msg.clone());
             let env = self.env();
             let info = MessageInfo {
                 sender: Addr::unchecked(sender),
@@ -767,7 +898,7 @@ impl World {
                 let deps = &mut self.deps;
                 guarded(move || execute(deps.as_mut(), env, info, msg))
             };
-            self.finish_call(&mut out, r, backup, &funds, sel);
+            self.finish_call(&mut out, r, backup, &funds, sel, &pre, &request);
             return Ok(out);
         }
 
@@ -815,16 +946,19 @@ impl World {
                 }
             };
             let backup = clone_storage(&self.deps.storage);
+            let pre = Snap::take(&self.deps.storage);
+            let request = Request::Migrate(msg.clone());
             let env = self.env();
             let r = {
                 let deps = &mut self.deps;
                 guarded(move || migrate(deps.as_mut(), env, msg))
             };
-            self.finish_call(&mut out, r, backup, &[], sel);
+            self.finish_call(&mut out, r, backup, &[], sel, &pre, &request);
             return Ok(out);
         }
 
         let credit = obj.get("credit").and_then(|c| c.as_bool()).unwrap_or(true);
+        let pre = Snap::take(&self.deps.storage);
 
         if let Some(v) = obj.get("set_version") {
             let mut out = StepOutcome::new(index, "set_version");
@@ -848,7 +982,7 @@ impl World {
             }
             self.snapshot(&mut out);
             if out.ok {
-                self.run_oracles(&mut out, sel);
+                self.run_oracles(&mut out, sel, &pre, &Request::None, &[]);
             }
             return Ok(out);
         }
@@ -860,7 +994,7 @@ impl World {
                     Ok(()) => {
                         out.ok = true;
                         if credit {
-                            let v3: BidOrderV3 = b.into();
+                            let v3 = legacy_as_current(&b);
                             self.credit_bid(&v3);
                         }
                     }
@@ -870,7 +1004,7 @@ impl World {
             }
             self.snapshot(&mut out);
             if out.ok {
-                self.run_oracles(&mut out, sel);
+                self.run_oracles(&mut out, sel, &pre, &Request::None, &[]);
             }
             return Ok(out);
         }
@@ -891,7 +1025,7 @@ impl World {
             }
             self.snapshot(&mut out);
             if out.ok {
-                self.run_oracles(&mut out, sel);
+                self.run_oracles(&mut out, sel, &pre, &Request::None, &[]);
             }
             return Ok(out);
         }
@@ -935,7 +1069,7 @@ impl World {
             }
             self.snapshot(&mut out);
             if out.ok {
-                self.run_oracles(&mut out, sel);
+                self.run_oracles(&mut out, sel, &pre, &Request::None, &[]);
             }
             return Ok(out);
         }
@@ -961,6 +1095,39 @@ impl World {
             &b.quote.denom,
             rem_quote.saturating_add(rem_fee),
         );
+    }
+}
+
+/// The current-format reading of a legacy bid (accumulated amounts = sums over its event log),
+/// computed here and not with the contract's own conversion.
+#[allow(deprecated)]
+pub fn legacy_as_current(o: &BidOrderV2) -> BidOrderV3 {
+    use ats_smart_contract::common::Action;
+    let (mut sb, mut sq, mut sf) = (0u128, 0u128, 0u128);
+    let amt = |c: &Option<Coin>| c.as_ref().map(|c| c.amount.u128()).unwrap_or(0);
+    for e in &o.events {
+        match &e.action {
+            Action::Fill { base, fee, quote, .. } | Action::Reject { base, fee, quote } => {
+                sb = sb.saturating_add(base.amount.u128());
+                sq = sq.saturating_add(quote.amount.u128());
+                sf = sf.saturating_add(amt(fee));
+            }
+            Action::Refund { fee, quote } => {
+                sq = sq.saturating_add(quote.amount.u128());
+                sf = sf.saturating_add(amt(fee));
+            }
+        }
+    }
+    BidOrderV3 {
+        base: o.base.clone(),
+        accumulated_base: sb.into(),
+        accumulated_quote: sq.into(),
+        accumulated_fee: sf.into(),
+        fee: o.fee.clone(),
+        id: o.id.clone(),
+        owner: o.owner.clone(),
+        price: o.price.clone(),
+        quote: o.quote.clone(),
     }
 }
 
@@ -995,6 +1162,16 @@ fn parse_funds(v: Option<&Value>) -> Result<Vec<Coin>, String> {
         out.push(Coin::new(amount, denom));
     }
     Ok(out)
+}
+
+/// The typed request of a step, as handed to the contract.
+#[derive(Clone, Debug)]
+pub enum Request {
+    Instantiate(InstantiateMsg),
+    Execute(ExecuteMsg),
+    Migrate(MigrateMsg),
+    /// direct storage writes of the test bed (set_version, put_*)
+    None,
 }
 
 // ---------------------------------------------------------------------------
